@@ -266,6 +266,19 @@ class Giv:
             L, R = cond[2], cond[3]
             lv, rv = self.ev(L, env), self.ev(R, env)
             kl, kr = self.key(L), self.key(R)
+            Ls = strip(L)
+            if kl is None and kind(Ls) == "incdec" and self.key(Ls[3]) is not None:
+                # `while (i-- > 0)`: the block's statements have already applied the decrement; the value compared is the
+                # old one (post form) or the new one (prefix form)
+                kt = self.key(Ls[3])
+                d = 1 if Ls[1] == "++" else -1
+                cur = self.ev(Ls[3], env)
+                tested = cur if Ls[2] else (cur[0] - d, cur[1] - d)
+                n = self._apply(op, tested, rv)
+                if n is None:
+                    return None
+                env[kt] = n if Ls[2] else (n[0] + d, n[1] + d)
+                return env
             if kl is not None:
                 n = self._apply(op, lv, rv)
                 if n is None:
@@ -387,7 +400,13 @@ class Giv:
             if key is not None:
                 lo, hi = self.ev(e[3], env)
                 d = 1 if e[1] == "++" else -1
-                self._set(env, key, (lo + d, hi + d))
+                tl, th = self.type_range_key(key)
+                if tl < 0:
+                    # signed counter: overflow is undefined behaviour, so the step saturates instead of wrapping
+                    # (keeps the untouched bound of a widened `while (i-- > 0)` counter)
+                    self._set(env, key, (max(tl, lo + d), min(th, hi + d)))
+                else:
+                    self._set(env, key, (lo + d, hi + d))
             return
         if k == "call":
             for a in e[3]:
